@@ -14,10 +14,16 @@ Definition str_value (n : node) : option string :=
   | _ => None
   end.
 
-(** [add_literal]: the length window is the generated predicate (bytes). *)
+(** [add_literal]: the length window (bytes) and the two callee names are the DOCUMENTED ones, written here; that the
+    code carries the same (the predicate and the names regenerated from literal_visitor.rs on every run) is
+    Properties/C14.v, [C14_window_is_documented] / [C14_skipped_callees_are_documented]. *)
+Definition documented_len_ok (len : N) : bool := andb (N.ltb 10 len) (N.leb len 256).
+Definition documented_require : string := "require".
+Definition documented_regexp : string := "RegExp".
+
 Definition entry_of (n : node) (ident : option string) : list lit_entry :=
   match str_value n with
-  | Some v => if gen_len_ok (N.of_nat (String.length v))
+  | Some v => if documented_len_ok (N.of_nat (String.length v))
               then [{| le_value := v; le_span := span_of n; le_ident := ident |}] else []
   | None => []
   end.
@@ -35,9 +41,9 @@ Definition callee_named (callee : node) (name : string) : bool :=
 Definition skipped (n : node) : bool :=
   match n with
   | Node (K KCall _ _) [_; callee; Node Lst args; _] =>
-      callee_named callee gen_REQUIRE && first_arg_is_plain_literal args
+      callee_named callee documented_require && first_arg_is_plain_literal args
   | Node (K KNew _ _) [_; callee; Node Lst args; _] =>
-      callee_named callee gen_REGEXP && first_arg_is_plain_literal args
+      callee_named callee documented_regexp && first_arg_is_plain_literal args
   | _ => false
   end.
 
